@@ -14,7 +14,7 @@ CLAIMED = {
     "C04": {
         "technique": "deterministic simulation with fault injection: seeded fault plans (torn/flipped/zeroed/duplicated bytes, stale/empty/missing files, directories for files, failing os calls, record-level corruption, HTTP status/body faults, cancellation, stream errors and short reads) drawn after a fault-free dry run and injected into simulated runs of every public entry point, under seeded map-order schedules, a tick clock (deterministic hang verdict) and a call-depth budget; fault/workload minimisation and replay; worker death re-executed in isolation",
         "text": "Seeded search over fault sequences and generated inputs/configurations; the oracle is only 'the call returns'. The statement quantifies over all byte sequences: this family reaches that set only through corruptions of well-formed documents and unusual-but-valid generated shapes, a weak decision procedure for deep structural cases (DESIGN.md §5 C04).",
-        "note": "Crashes are keyed by class + innermost cog function (package for runaway recursion and hangs); 33 crash sites that exist on the unchanged tree are listed in known_findings.json and 30 were repaired. A new crash in a function that already has a listed crash of the same class is masked. Hangs inside uninstrumented libraries are caught by a wall-clock/memory watchdog and confirmed in a fresh process.",
+        "note": "Crashes are keyed by class + innermost cog function (package for runaway recursion and hangs); 32 crash sites that exist on the unchanged tree are listed in known_findings.json and 45 were repaired. A new crash in a function that already has a listed crash of the same class is masked. Hangs inside uninstrumented libraries are caught by a wall-clock/memory watchdog and confirmed in a fresh process.",
         "design_ref": "DESIGN.md §5 C04",
     },
     "C05": {
@@ -26,7 +26,7 @@ CLAIMED = {
     "C06": {
         "technique": "deterministic simulation: invariant monitors on the output of every language's real pass chain (ContextForLanguage) for generated nested inputs under seeded map-order schedules; the statement's predicates evaluated on every type position; violations attributed to the pass that broke them by replaying the chain step by step; shrinking and replay",
         "text": "Chain post-conditions are checked on sampled nested inputs in two generator modes (plain: flat unions, no allOf; nested: everything). Each violation is keyed by (mode, language, predicate, cause) where cause is broken-by:<pass>, created-violating-by:<pass> or never-established, so that a chain losing the pass that establishes a predicate shows up as a new key even though many gaps of the chains are already known.",
-        "note": "The 74 known findings are genuine normal-form gaps of the current chains (a later pass replaces a type and drops nullability, nested unions survive in generated structs, ...). A regression that coincides exactly with a listed (mode, language, predicate, cause with kind transition) is masked. Hint payloads are not type positions.",
+        "note": "The 75 known findings are genuine normal-form gaps of the current chains (a later pass replaces a type and drops nullability, nested unions survive in generated structs, ...). A regression that coincides exactly with a listed (mode, language, predicate, cause with kind transition) is masked. Hint payloads are not type positions.",
         "design_ref": "DESIGN.md §5 C06",
     },
     "C07": {
